@@ -43,6 +43,9 @@ struct ElemC {
   ~ElemC() { if (magic != kAlive) g_life[2].dd++; magic = kDead; g_life[2].died++; }
 };
 
+// a plain (nothrow-copyable) value that converts to ElemA only, through a constructor that may throw
+struct Tok { int v; };
+
 template <int Tag>
 struct Elem {
   int v;
@@ -54,6 +57,8 @@ struct Elem {
   // converting constructor from C (only A is used with it)
   template <int T2 = Tag, typename = std::enable_if_t<T2 == 0>>
   Elem(const ElemC& c) : v(c.v), magic(kAlive) { MaybeThrow(); g_life[Tag].born++; }
+  template <int T2 = Tag, typename = std::enable_if_t<T2 == 0>>
+  Elem(const Tok& t) : v(t.v), magic(kAlive) { MaybeThrow(); g_life[Tag].born++; }
   Elem& operator=(const Elem& o) { if (magic != kAlive || o.magic != kAlive) g_life[Tag].dead_use++; v = o.v; return *this; }
   Elem& operator=(Elem&& o) noexcept { if (magic != kAlive || o.magic != kAlive) g_life[Tag].dead_use++; if (&o != this) { v = o.v; o.v = kMoved; } return *this; }
   ~Elem() { if (magic != kAlive) g_life[Tag].dd++; magic = kDead; g_life[Tag].died++; }
@@ -179,6 +184,7 @@ static void RunVariant(const Json& ops, JsonOut& o) {
         else if (op == "new_b") { ElemB e(x); slots[s] = new (mem) Var(std::move(e)); }
         else if (op == "new_i") { slots[s] = new (mem) Var(x); }
         else if (op == "new_c") { ElemC c(x); slots[s] = new (mem) Var(c); }
+        else if (op == "new_t") { Tok t{x}; slots[s] = new (mem) Var(t); }
         // construction from a Variant over other types: copy (holding A), move (holding B), empty
         else if (op == "new_sub_a") { VarSub src{ElemA(x)}; slots[s] = new (mem) Var(src); }
         else if (op == "new_sub_b") { VarSub src{ElemB(x)}; slots[s] = new (mem) Var(std::move(src)); }
@@ -197,6 +203,9 @@ static void RunVariant(const Json& ops, JsonOut& o) {
       else if (op == "assign_b") { ElemB e(x); v = std::move(e); }
       else if (op == "assign_i") { v = x; }
       else if (op == "assign_c") { ElemC c(x); v = c; }
+      else if (op == "assign_t") { Tok t{x}; v = t; }
+      // assignment from the variant's own active element (the argument aliases what is being assigned over)
+      else if (op == "assign_own") { if (ElemA* a = v.get<ElemA>()) v = *a; else if (ElemB* b = v.get<ElemB>()) v = *b; else if (int* i = v.get<int>()) v = *i; }
       else if (op == "assign_ev") v = nop::EmptyVariant{};
       else if (op == "assign_sub_a") { VarSub src{ElemA(x)}; v = src; }
       else if (op == "assign_sub_b") { VarSub src{ElemB(x)}; v = std::move(src); }
@@ -294,6 +303,8 @@ struct OptMachine {
         else if (op == "clear") v.clear();
         else if (op == "take") { if (v.empty()) { bad = true; return; } T t(v.take()); taken = ValOf(t); has_taken = true; }
         else if (op == "destroy") { v.~Opt(); slots[s] = nullptr; }
+        // assignment from the object's own value (the argument aliases what is being assigned over)
+        else if (op == "assign_own") { if (v.empty()) { bad = true; return; } v = v.get(); }
         else if (op == "assign_conv_move" || op == "assign_conv_copy") {
           // assignment from an Optional of a *different* element type (U converts to T)
           using U = typename ConvSource<T>::type;
@@ -386,6 +397,7 @@ static void RunResult(const Json& ops, JsonOut& o) {
       else if (op == "assign_val") { ElemA e(x); v = e; }
       else if (op == "assign_rval") v = ElemA(x);
       else if (op == "assign_err") v = static_cast<RErr>(x);
+      else if (op == "assign_own") { if (!v.has_value()) { bad = true; return; } v = v.get(); }
       else if (op == "clear") v.clear();
       else if (op == "take") { if (!v.has_value()) { bad = true; return; } ElemA t(v.take()); taken = t.v; has_taken = true; }
       else if (op == "destroy") { v.~Res(); slots[s] = nullptr; }
